@@ -420,3 +420,7 @@ def check(model, rep):
     ck.r031()
     ck.r032()
     ck.r033()
+    from .c02 import closure_obligations
+    helpers = [f for f in model.funcs_in('basic_robotics.general.basic_helpers') if f.name in ('TAAtoTM', 'TMtoTAA', 'localToGlobal', 'globalToLocal')]
+    n = closure_obligations(model, rep, 'R03.4', list(ck.tm.methods.values()) + helpers, 'class tm (TAAtoTM / TMtoTAA / inv / adjoint / frame conversion)')
+    rep.floor('R03.4', 'shared primitives under class tm', len(n), 8)
